@@ -40,7 +40,11 @@ class World:
                     kw[k] = core._REAL_DATETIME.fromisoformat(kw[k])
             self.add_task(t['name'], pj.Task(t['id'], **kw))
         for w in universe['wbs']:
-            self.add_wbs(w['name'], pj.WBS(**w.get('kw', {})))
+            obj = pj.WBS()
+            # public attributes set on the WBS object itself (WBS(**kw) would put them on the hidden root task)
+            for k, v in w.get('kw', {}).items():
+                setattr(obj, k, v)
+            self.add_wbs(w['name'], obj)
 
     # ---- naming
     def add_task(self, name, obj):
@@ -396,6 +400,10 @@ class World:
             src_roots = [self.tasks[n] for n in op['arg'].get('items', []) if n in self.tasks]
         c = w.subtree(a)
         self._register_copy(op, w, c, src_roots)
+
+    def op_w_setattr(self, op):
+        w = self.need(self.wbs.get(op['w']))
+        setattr(w, op['attr'], op['value'])
 
     def op_acquire(self, op):
         lst = self.need(self.get_list(op['on'], op['what']))
